@@ -22,9 +22,9 @@ EXTRA = {
     "C07": " The iPAddress octet converter is a pure conversion chain (4 octets -> that IPv4 address, 16 -> that IPv6 address, other lengths an error).",
     "C08": " The CRL's authority key identifier goes through KeyIdMethod::derive (pre-specified ids unchanged, digests cut to 20 octets).",
     "C09": " No pre-encoded (raw) element is computed from a time field; every alternative of the value whose year selects the form is UTC-normalised or taken only when the offset is UTC.",
-    "C10": " Every SET / SET OF element is written on exactly the paths on which its element writer was obtained (also through IMPLICIT re-tagging); panic sites of finite-domain functions are discharged by exhaustive evaluation.",
+    "C10": " Every SET / SET OF element is written on exactly the paths on which its element writer was obtained (also through IMPLICIT re-tagging); panic sites of finite-domain functions are discharged by exhaustive evaluation; unwraps of slice-to-array conversions by the statically derived slice length; the string wrappers' admission predicates (on which the sink discharge rests).",
     "C11": " KeyPair::der_bytes is, per key kind, the key object's own public_key() unmodified; the signing arms as in C01; from_oid selects on equality of the whole arc sequence; under aws-lc-rs the RSA parser is chosen by the container kind (PKCS#8 vs PKCS#1).",
-    "C15": " The to-be-signed call graph includes the local Iterator::next impls that for-loops drive.",
+    "C15": " The to-be-signed call graph includes the local Iterator::next impls that for-loops drive; nothing that holds a std HashMap / HashSet is formatted on it.",
     "C16": " KeyIdMethod::derive, the CA importer and der_bytes are checked in all three builds (K1/K2/K3).",
     "C17": " The EKU converter has no rejecting path of its own; DnType OID tables, SAN and iPAddress converters, string alphabets/sinks as for generation.",
     "C18": " The SAN / KeyUsage / ExtendedKeyUsage / BasicConstraints writers and rcgen's own panic audit as compiled for the tool; main may delegate to a helper (ordering decided in the delegate); the string admission predicates as compiled for the tool.",
